@@ -357,6 +357,8 @@ def run(tier, seed):
                EquationSolver.ExtractVariableList, sfc_models.equation_parser.EquationParser.EquationReduction)
     BUDGET[0] = 60 if tier == 'quick' else 1200
     FP_TIMEOUT[0] = 120000 if tier == 'quick' else 600000
+    from vf import selfcheck
+    selfcheck.run(chk)      # differential validation of the E2 value classes against plain floats (trusted base)
     rc = real_cases(tier)
     fc = fp_cases(tier)
     chk.bounds = {'real mode': '%d cases: blocks %r x tolerance {1e-2,1e-6} x iteration cap x reduction on/off; start values and exogenous in [-100,100], '
@@ -364,7 +366,7 @@ def run(tier, seed):
                   'fp mode': '%d cases: blocks %r, binary64 RNE, all finite doubles as start values / constants, cap 1 (2 thorough), every path' % (len(fc), sorted(FP_BLOCKS)),
                   'residual bound': '(1+||A||inf) * n * tol/(1-tol) * max(1, max|x|) for simultaneously determined equations (derived from the exit test); '
                   'decorative, alias, lagged, exogenous, time: exact'}
-    chk.assumptions = ['real mode uses exact real arithmetic (rounding is the FP clause`s business)', 'inputs (start values, exogenous, constants) are finite',
+    chk.assumptions = ['E2 value classes validated on every run: 7 concrete solver runs through SymReal (agree with floats to 1e-9) and SymFP (bit-identical with floats)', 'real mode uses exact real arithmetic (rounding is the FP clause`s business)', 'inputs (start values, exogenous, constants) are finite',
                        'max() inside the solver module is shadowed by an ite-building equivalent in FP mode only (module-level name injection, no source change; '
                        'Python semantics max(a,b) = b if b > a else a)']
     chk.outside = ['more than 3 simultaneous variables', 'math.* functions and ** inside equations', 'residual bound for non-affine simultaneous equations '
